@@ -309,10 +309,185 @@ def translate_format_date(tree):
     return skew, rel
 
 
+# ------------------------------------------------------------------ format_date: absolute formats
+def glist_codes(s):
+    """any str -> explicit code point list (for non-ASCII constants)"""
+    if not isinstance(s, str):
+        raise Unsupported("string expected")
+    return "[" + "; ".join("%d%%N" % ord(c) for c in s) + "]" if s else "(@nil N)"
+
+
+def underscore_const(e):
+    """_("...") -> the string"""
+    if (isinstance(e, ast.Call) and isinstance(e.func, ast.Name) and e.func.id == "_" and len(e.args) == 1 and not e.keywords
+            and isinstance(e.args[0], ast.Constant) and isinstance(e.args[0].value, str)):
+        return e.args[0].value
+    raise Unsupported("_(constant) expected: " + ast.dump(e)[:120])
+
+
+def format_value(e):
+    """_(A) | _(A) if shorter else _(B)  ->  Gallina text of type list N"""
+    if isinstance(e, ast.IfExp):
+        if not (isinstance(e.test, ast.Name) and e.test.id == "shorter"):
+            raise Unsupported("conditional format on something else than `shorter`")
+        return "(if shorter then %s else %s)" % (gstr(underscore_const(e.body)), gstr(underscore_const(e.orelse)))
+    return gstr(underscore_const(e))
+
+
+def days_cond(e):
+    if isinstance(e, ast.Compare) and len(e.ops) == 1 and isinstance(e.left, ast.Name) and e.left.id == "days":
+        k = posint(e.comparators[0]) if not (isinstance(e.comparators[0], ast.Constant) and e.comparators[0].value == 0) else 0
+        if isinstance(e.ops[0], ast.Eq):
+            return "(days =? %d)" % k
+        if isinstance(e.ops[0], ast.Lt):
+            return "(days <? %d)" % k
+    if isinstance(e, ast.Name) and e.id == "relative":
+        return "relative"
+    if ast.dump(e) == ast.dump(ast.parse("local_date.day == local_yesterday.day", mode="eval").body):
+        return "same_day"
+    if isinstance(e, ast.BoolOp) and isinstance(e.op, ast.And):
+        return "(" + " && ".join(days_cond(v) for v in e.values) + ")"
+    raise Unsupported("format condition: " + ast.dump(e)[:160])
+
+
+def format_chain(st, ind="  "):
+    """if/elif chain of `format = ...` -> option-valued Gallina (None = `format` left None)"""
+    if not (isinstance(st, ast.If) and len(st.body) == 1 and isinstance(st.body[0], ast.Assign)
+            and len(st.body[0].targets) == 1 and isinstance(st.body[0].targets[0], ast.Name) and st.body[0].targets[0].id == "format"):
+        raise Unsupported("format chain link: " + ast.dump(st)[:160])
+    head = "%sif %s then Some %s\n%selse " % (ind, days_cond(st.test), format_value(st.body[0].value), ind)
+    if not st.orelse:
+        return head + "None"
+    if len(st.orelse) != 1:
+        raise Unsupported("format chain else-branch")
+    return head + "\n" + format_chain(st.orelse[0], ind)
+
+
+def translate_absolute(tree):
+    fn = find_method(tree, "Locale", "format_date")
+    body = strip_doc(fn.body)
+    chain = full = None
+    times, clock_test = [], None
+    required = {"local_date = date - datetime.timedelta(minutes=gmt_offset)": 0,
+                "local_now = now - datetime.timedelta(minutes=gmt_offset)": 0,
+                "local_yesterday = local_now - datetime.timedelta(hours=24)": 0,
+                "format = None": 0}
+    for st in body:
+        for src in required:
+            if ast.dump(st) == ast.dump(ast.parse(src).body[0]):
+                required[src] += 1
+        if isinstance(st, ast.If) and ast.dump(st.test) == ast.dump(ast.parse("not full_format", mode="eval").body) and not st.orelse:
+            if len(st.body) != 2:
+                raise Unsupported("`if not full_format:` body has %d statements" % len(st.body))
+            chain = format_chain(st.body[1])
+        if isinstance(st, ast.If) and ast.dump(st.test) == ast.dump(ast.parse("format is None", mode="eval").body) and not st.orelse:
+            if not (len(st.body) == 1 and isinstance(st.body[0], ast.Assign) and st.body[0].targets[0].id == "format"):
+                raise Unsupported("`if format is None:` body")
+            full = format_value(st.body[0].value)
+        if (isinstance(st, ast.Assign) and isinstance(st.targets[0], ast.Name) and st.targets[0].id == "tfhour_clock"):
+            if not same_shape(st, 'tfhour_clock = self.code not in ("en", "en_US", "zh_CN")'):
+                raise Unsupported("tfhour_clock shape")
+            clock_test = [c.value for c in st.value.comparators[0].elts]
+    # the three str_time assignments, in source order
+    for node in ast.walk(fn):
+        if isinstance(node, ast.Assign) and isinstance(node.targets[0], ast.Name) and node.targets[0].id == "str_time":
+            v = node.value
+            if not (isinstance(v, ast.BinOp) and isinstance(v.op, ast.Mod) and isinstance(v.left, ast.Constant) and isinstance(v.left.value, str)):
+                raise Unsupported("str_time assignment")
+            consts = [n.value for n in ast.walk(v.right) if isinstance(n, ast.Constant)]
+            times.append((v.left.value, [c for c in consts if isinstance(c, str)] + sorted(c for c in consts if not isinstance(c, str))))
+    if any(v != 1 for v in required.values()) or chain is None or full is None or clock_test is None or len(times) != 3:
+        raise Unsupported("absolute-format block of format_date not in the expected shape: %r" % (required,))
+    expect = [("%d:%02d", []), ("%s%d:%02d", ["\u4e0a\u5348", "\u4e0b\u5348", 12, 12, 12]), ("%d:%02d %s", ["am", "pm", 12, 12, 12])]
+    if times != expect:
+        raise Unsupported("str_time formats changed: %r" % (times,))
+    return chain, full, clock_test, times
+
+
+def translate_format_day(tree):
+    fn = find_method(tree, "Locale", "format_day")
+    tmpl = ast.parse(
+        "def format_day(self, date, gmt_offset=0, dow=True):\n"
+        "    local_date = date - datetime.timedelta(minutes=gmt_offset)\n"
+        "    _ = self.translate\n"
+        "    if dow:\n"
+        "        return _('A') % {'month_name': self._months[local_date.month - 1], 'weekday': self._weekdays[local_date.weekday()], 'day': str(local_date.day)}\n"
+        "    else:\n"
+        "        return _('B') % {'month_name': self._months[local_date.month - 1], 'day': str(local_date.day)}\n").body[0]
+
+    def shape(body):
+        return re.sub(r"Constant\(value='[^']*'\)", "Constant(value=S)", "".join(ast.dump(b) for b in body))
+    body = strip_doc(fn.body)
+    # keys must be identical, only the two templates may differ
+    if shape(body) != shape(tmpl.body):
+        raise Unsupported("format_day body shape")
+    keys = [k.value for n in body for k in (ast.walk(n)) if isinstance(k, ast.Constant) and isinstance(k.value, str)]
+    if keys[1:4] != ["month_name", "weekday", "day"] or keys[5:] != ["month_name", "day"]:
+        raise Unsupported("format_day keys %r" % keys)
+    return keys[0], keys[4]
+
+
+def translate_list(tree):
+    fn = find_method(tree, "Locale", "list")
+    tmpl = ast.parse(
+        "def list(self, parts):\n"
+        "    _ = self.translate\n"
+        "    if len(parts) == 0:\n        return ''\n"
+        "    if len(parts) == 1:\n        return parts[0]\n"
+        "    comma = ' X ' if self.code.startswith('fa') else ', '\n"
+        "    return _('T') % {'commas': comma.join(parts[:-1]), 'last': parts[len(parts) - 1]}\n").body[0]
+
+    def shape(body):
+        return re.sub(r"Constant\(value='[^']*'\)", "Constant(value=S)", "".join(ast.dump(b) for b in body))
+    body = strip_doc(fn.body)
+    if shape(body) != shape(tmpl.body):
+        raise Unsupported("Locale.list body shape")
+    s = [k.value for n in body for k in ast.walk(n) if isinstance(k, ast.Constant) and isinstance(k.value, str)]
+    # order of ast.walk is breadth-first per statement; pick by role instead
+    empty = body[1].body[0].value.value
+    ife = body[3].value
+    fa_comma, prefix, comma = ife.body.value, ife.test.args[0].value, ife.orelse.value
+    ret = body[4].value
+    template = ret.left.args[0].value
+    keys = [k.value for k in ret.right.keys]
+    if empty != "" or keys != ["commas", "last"]:
+        raise Unsupported("Locale.list constants %r %r" % (empty, keys))
+    return template, prefix, fa_comma, comma
+
+
+GET_CLOSEST_SRC = (
+    "def get_closest(cls, *locale_codes):\n"
+    "    for code in locale_codes:\n"
+    "        if not code:\n            continue\n"
+    "        code = code.replace('-', '_')\n"
+    "        parts = code.split('_')\n"
+    "        if len(parts) > 2:\n            continue\n"
+    "        elif len(parts) == 2:\n            code = parts[0].lower() + '_' + parts[1].upper()\n"
+    "        if code in _supported_locales:\n            return cls.get(code)\n"
+    "        if parts[0].lower() in _supported_locales:\n            return cls.get(parts[0].lower())\n"
+    "    return cls.get(_default_locale)\n")
+
+
+def translate_get_closest(tree, src_text):
+    fn = find_method(tree, "Locale", "get_closest")
+    want = ast.parse(GET_CLOSEST_SRC).body[0]
+    if "".join(ast.dump(b) for b in strip_doc(fn.body)) != "".join(ast.dump(b) for b in want.body):
+        raise Unsupported("get_closest differs from the modelled text")
+    m = re.search(r'^_default_locale = "([A-Za-z_]+)"$', src_text, re.M)
+    if not m or len(re.findall(r"^_default_locale\s*=", src_text, re.M)) != 1:
+        raise Unsupported("_default_locale")
+    return m.group(1)
+
+
 def emit(repo, out):
-    tree = ast.parse(open(os.path.join(repo, "tornado/locale.py")).read())
+    src_text = open(os.path.join(repo, "tornado/locale.py")).read()
+    tree = ast.parse(src_text)
     codes, fbody = translate_friendly(tree)
     skew, rel = translate_format_date(tree)
+    chain, full, clock_codes, times = translate_absolute(tree)
+    day_dow, day_plain = translate_format_day(tree)
+    l_template, l_prefix, l_fa_comma, l_comma = translate_list(tree)
+    default_locale = translate_get_closest(tree, src_text)
     txt = ("(* GENERATED by translators/c46_src.py from tornado/locale.py — do not edit *)\n"
            "From Coq Require Import List ZArith NArith Bool String.\nImport ListNotations.\nFrom TV Require Import C46.Model.\n"
            "Local Open Scope Z_scope.\n\n"
@@ -321,8 +496,34 @@ def emit(repo, out):
            "Definition src_friendly_number (en : bool) (value : Z) : option (list N) :=\n%s.\n\n"
            "(* format_date: `(date - now) < datetime.timedelta(seconds=...)` *)\nDefinition src_skew_seconds : Z := %d.\n\n"
            "(* format_date: body of `if relative and days == 0:` -> (singular message, plural suffix after %%(..)d, count) *)\n"
-           "Definition src_relative (seconds : Z) : list N * list N * Z :=\n%s.\n"
+           "Definition src_relative (seconds : Z) : list N * list N * Z :=\n%s.\n\n"
            % ("; ".join(gstr(c) for c in codes), fbody, skew, rel))
+    txt += ("(* format_date: the if/elif chain assigning `format` (None = left for `if format is None:`);\n"
+            "   same_day = (local_date.day == local_yesterday.day) *)\n"
+            "Definition src_format_choice (days : Z) (same_day relative shorter : bool) : option (list N) :=\n%s.\n\n"
+            "(* format_date: `if format is None: format = ...` *)\n"
+            "Definition src_full_format (shorter : bool) : list N := %s.\n\n"
+            "(* format_date: tfhour_clock = self.code not in (...); the three str_time formats and their constants *)\n"
+            "Definition src_clock_codes : list (list N) := [%s].\n"
+            "Definition src_time_formats : list (list N) := [%s].\n"
+            "Definition src_zh_ampm : list (list N) := [%s].\n"
+            "Definition src_en_ampm : list (list N) := [%s].\n\n"
+            "(* format_day: the two templates (dow / not dow) *)\n"
+            "Definition src_day_templates : list (list N) := [%s; %s].\n\n"
+            % (chain, full, "; ".join(gstr(c) for c in clock_codes), "; ".join(gstr(f) for f, _ in times),
+               "; ".join(glist_codes(c) for c in times[1][1][:2]), "; ".join(gstr(c) for c in times[2][1][:2]),
+               gstr(day_dow), gstr(day_plain)))
+    txt += ("(* Locale.list; fa = self.code.startswith(%s) *)\n"
+            "Definition src_list_prefix : list N := %s.\n"
+            "Definition src_locale_list (fa : bool) (parts : list (list N)) : option (list N) :=\n"
+            "  if (List.length parts =? 0)%%nat then Some (@nil N)\n"
+            "  else if (List.length parts =? 1)%%nat then nth_error parts 0\n"
+            "  else let comma := if fa then %s else %s in\n"
+            "       bind (nth_error parts (List.length parts - 1)) (fun last_part =>\n"
+            "       py_format %s [(codes \"commas\", join comma (firstn (List.length parts - 1) parts)); (codes \"last\", last_part)]).\n\n"
+            "(* get_closest has exactly the modelled statement structure; module constant _default_locale *)\n"
+            "Definition src_default_locale : list N := %s.\n"
+            % (gstr(l_prefix), gstr(l_prefix), glist_codes(l_fa_comma), gstr(l_comma), gstr(l_template), gstr(default_locale)))
     old = open(out).read() if os.path.exists(out) else None
     if old != txt:
         open(out, "w").write(txt)
